@@ -372,11 +372,31 @@ class SymArr(np.ndarray):
         for k in ('dtype', 'casting', 'subok', 'order', 'signature'):
             kw.pop(k, None)
         w = kw.pop('where', True)
-        if w is not True and w is not np._NoValue:
-            raise SymUnsupported('ufunc where=')
+        masked = w is not True and w is not np._NoValue
+        if masked and (method != '__call__' or out is None):
+            raise SymUnsupported('ufunc where= without out= / on a reduction')
         ins = [_plain(x) for x in inputs]
         uf = _frompy(f, ufunc.nin)
-        if method == '__call__':
+        if method == '__call__' and masked:
+            # f is evaluated only where the mask holds (np.divide(..., where=den > 0) must not divide by zero elsewhere);
+            # the other positions keep the value of out=
+            o = out[0] if isinstance(out, tuple) else out
+            ob = _plain(o) if isinstance(o, np.ndarray) else np.asarray(o, dtype=object)
+            mk = _plain(w) if isinstance(w, np.ndarray) else np.asarray(w, dtype=object)
+            bc = np.broadcast_arrays(*([np.asarray(x, dtype=object) for x in ins] + [np.asarray(mk, dtype=object), ob]))
+            res = np.empty(bc[-1].shape, dtype=object)
+            for ix in np.ndindex(*res.shape):
+                m = bc[-2][ix]
+                if isinstance(m, SB):
+                    if m.is_const() if hasattr(m, 'is_const') else False:
+                        m = bool(m)
+                if isinstance(m, SB):
+                    res[ix] = S.sym_if(m, f(*[b[ix] for b in bc[:-2]]), bc[-1][ix]) if not bool(S.sym_not(m)) else bc[-1][ix]
+                elif m:
+                    res[ix] = f(*[b[ix] for b in bc[:-2]])
+                else:
+                    res[ix] = bc[-1][ix]
+        elif method == '__call__':
             res = uf(*ins)
         elif method == 'reduce' and ufunc in (np.maximum, np.minimum) and ins[0].ndim >= 1 \
                 and kw.get('initial', None) in (None, np._NoValue):
